@@ -704,6 +704,30 @@ func runC10(c *Ctx) {
 				break
 			}
 		}
+		// the Data of a request belongs to the host: a slice cut from a larger buffer (an RST
+		// table, a bus buffer) has spare capacity, and acceptance may not write there
+		for v := 0; v < 256 && c.R.Violations() == 0; v++ {
+			for im := 0; im < 3; im++ {
+				buf := []uint8{uint8(0xc7 | v&0x38), 0x11, 0x22, 0x33, 0x44, 0x55}
+				if im == 2 {
+					buf[0] = uint8(v) &^ 1
+				}
+				keep := append([]uint8(nil), buf...)
+				m := &mon.Mem{}
+				cpu := &z80.CPU{Memory: m, Interrupt: &z80.Interrupt{Type: z80.IMType, Data: buf[:1]}}
+				cpu.IM, cpu.IFF1, cpu.SP, cpu.PC = im, true, 0x8000, 0x4000+uint16(v)
+				func() {
+					defer func() { recover() }()
+					cpu.Step()
+				}()
+				ctorN++
+				if !bytesEq(buf, keep) {
+					c.R.Violation("C10/request-data-buffer-written", map[string]interface{}{
+						"what": "accepting a request whose Data is a slice with spare capacity (cut from a larger host buffer) wrote into that buffer: state outside States and memory that other requests cut from the same buffer will see",
+						"IM":   im, "buffer_before": HexBytes(keep), "buffer_after": HexBytes(buf)})
+				}
+			}
+		}
 		c.R.Set("constructor_independence_checks", ctorN)
 	}
 	// host-owned request objects (cases where the device re-assigns ONE object per kind)
